@@ -28,7 +28,7 @@
       finds a concrete racy schedule when the skeleton no longer passes the check.
 
     Stdlib only, no axioms. *)
-From HV Require Import Base.Prelude Base.Locks C07.Model C07.Lin C07.Proofs.
+From HV Require Import Base.Prelude Base.Locks C07.Model C07.Lin C07.Proofs C07.Examples.
 
 (* ------------------------------------------------------------------ what the instrumented code logs *)
 
@@ -858,3 +858,46 @@ Example hb_detects_unlocked_load :
             ILk 0 (EUnlock 0); IEnd 0;
             IBegin 1 0; IGet 1 2 2; IObj 1 2 false; IEnd 1] <> [].
 Proof. vm_compute. discriminate. Qed.
+
+(** non-vacuity of the tie inside Coq: a hand-written log of the accepted example skeleton (method 0 = lookup,
+    1 = add; a lookup overlapping an add whose loop ran twice - the second [IObj] is a stutter -, then a lookup that
+    sees the published clone) is replayed WITHOUT error, all of it, and ends with both threads idle ... *)
+Definition ex_log : list item :=
+  [IBegin 0 1; ILk 0 (ELock 0); IGet 0 1 1; IClone 0 2 1; IObj 0 2 true; IObj 0 2 true;
+   IBegin 1 0; ILk 1 (ERLock 1); IGet 1 1 1; IObj 1 1 false; ILk 1 (ERUnlock 1); IEnd 1;
+   IGet 0 0 0; IPut 0 0 0; ILk 0 (ELock 1); IPut 0 1 2; ILk 0 (EUnlock 1); ILk 0 (EUnlock 0); IEnd 0;
+   IBegin 1 0; ILk 1 (ERLock 1); IGet 1 1 2; IObj 1 2 false; ILk 1 (ERUnlock 1); IEnd 1].
+
+Definition ex_sk : skel := ex_skel (ex_add true false false).
+
+Example ex_log_replays :
+  let r := replay wf1 ex_sk tt ex_log (rpst0 cfg0) in
+  snd r = None /\ c_thr (rs_cfg (fst r)) 0 = None /\ c_thr (rs_cfg (fst r)) 1 = None /\
+  length (rs_lab (fst r)) = 24 /\ hb_race_free ex_log = true.
+Proof. vm_compute. repeat split; reflexivity. Qed.
+
+(** ... a log in which the reader finds the clone BEFORE it was published is refused (other object than the model's) *)
+Example ex_log_wrong_object_refused :
+  snd (replay wf1 ex_sk tt
+         [IBegin 0 1; ILk 0 (ELock 0); IGet 0 1 1; IClone 0 2 1;
+          IBegin 1 0; ILk 1 (ERLock 1); IGet 1 1 2] (rpst0 cfg0)) = Some (RMismatch 1 (ELoad 0 1)).
+Proof. vm_compute. reflexivity. Qed.
+
+(** ... and so the shaped hypotheses of the property theorems are met by a concrete execution of a skeleton
+    that passes the check: three completed operations of two threads, the second lookup invoked after the add
+    returned ([C07_real_time_order]), nobody in flight at the end ([C07_no_lost_update]) *)
+Example ex_execution_witness :
+  wf_skel 0 ex_sk = true /\
+  exists ls c,
+    exec wf1 ex_sk false cfg0 ls c /\
+    flat_map label_io ls = [(0, Some 1); (1, Some 0); (1, None); (0, None); (1, Some 0); (1, None)] /\
+    c_thr c 0 = None /\ c_thr c 1 = None.
+Proof.
+  split; [exact ex_good|].
+  pose (r := replay wf1 ex_sk tt ex_log (rpst0 cfg0)).
+  exists (rev (rs_lab (fst r))), (rs_cfg (fst r)).
+  split.
+  - apply (replay_sound unit unit wf1 ex_sk tt cfg0 ex_log (fst r) (snd r)). unfold r.
+    destruct (replay wf1 ex_sk tt ex_log (rpst0 cfg0)); reflexivity.
+  - vm_compute. repeat split; reflexivity.
+Qed.
